@@ -19,6 +19,14 @@ theorem ts_layout :
     tsDONT ≤ tsStateMask ∧ tsSB ≤ tsStateMask ∧ tsSBIAC ≤ tsStateMask ∧ tsCrSeen &&& tsStateMask = 0 ∧
     [tsDATA, tsIAC, tsWILL, tsWONT, tsDO, tsDONT, tsSB, tsSBIAC].Nodup := by decide
 
+/-- **tie of the statement order**: the order of the statements of the PORT_ASCII line loop (`text_start` committed and
+    the LF overwritten *before* process_input runs; re-validation, reset test, advance, move of the rest after it), of
+    add_console_line's checks and of the telnet store, as read from the source text on every run, is the order the
+    model implements.  A reordering in the C code changes `NV.Gen.C13` and breaks this obligation. -/
+theorem statement_order_tie :
+    asciiLoopOrder = asciiLoopOrderModel ∧ consoleCheckOrder = consoleCheckOrderModel ∧
+    telnetStoreOrder = telnetStoreOrderModel := by decide
+
 /-- **sb_in_bounds** (array size): the sub-negotiation buffer has room for SB_SIZE data bytes *and* the terminator
     that IAC SE stores at `sb_buf[sb_pos]`.  False before commit "fix: telnet sub-negotiation terminator ..."
     (`sizeof sb_buf == SB_SIZE`); see `Witness.sb_terminator_overflows_exact_array`. -/
